@@ -5,6 +5,7 @@ import (
 	"encoding/hex"
 	"io"
 	"lunar/engine/utils/environment"
+	"lunar/toolkit-core/verifhook"
 	"os"
 	"path/filepath"
 )
@@ -157,6 +158,11 @@ func (fs *FileSystemOperation) SaveMetricsConfig(content []byte) error {
 }
 
 func (fs *FileSystemOperation) cleanUpFile(filePath string) error {
+	if verifhook.Enabled {
+		if err := verifhook.Fault("fs.remove", filePath); err != nil {
+			return err
+		}
+	}
 	if err := os.Remove(filePath); err != nil && !os.IsNotExist(err) {
 		return err
 	}
@@ -177,6 +183,11 @@ func (fs *FileSystemOperation) cleanUpDirectory(cleanupPath string) error {
 }
 
 func (fs *FileSystemOperation) storeFileOnDisk(filePath string, content []byte) error {
+	if verifhook.Enabled {
+		if err := verifhook.Fault("fs.store", filePath); err != nil {
+			return err
+		}
+	}
 	_ = fs.cleanUpFile(filePath)
 
 	dir := filepath.Dir(filePath)
@@ -215,6 +226,11 @@ func (fs *FileSystemOperation) createFileSystemBackUp() (*FileSystemBackUp, erro
 }
 
 func (fs *FileSystemOperation) backupFile(filePath string, backup *FileSystemBackUp) error {
+	if verifhook.Enabled {
+		if err := verifhook.Fault("fs.backup", filePath); err != nil {
+			return err
+		}
+	}
 	if _, err := os.Stat(filePath); os.IsNotExist(err) {
 		return nil
 	}
